@@ -2,7 +2,7 @@
 import json, os, subprocess, time
 import build, common
 
-WRAPS = ["clock_nanosleep", "nanosleep", "sem_wait", "poll", "connect", "accept", "recv", "recvfrom", "send", "sendto", "shm_open", "sem_open"]
+WRAPS = ["clock_nanosleep", "nanosleep", "select", "gettimeofday", "sem_wait", "poll", "connect", "accept", "recv", "recvfrom", "send", "sendto", "shm_open", "sem_open"]
 
 
 def exe():
@@ -10,10 +10,21 @@ def exe():
                            ldflags=["-Wl," + ",".join("--wrap=" + w for w in WRAPS)])
 
 
+def sleep_variant_exe(tag, flags):
+    """the other two implementations of p_uthread_sleep that puthread.c contains (nanosleep; select with an empty descriptor set), selected by the configure-time macros"""
+    return build.build_exe("eintr_fault_" + tag, "asan", ["harness/eintr_fault.c", "engine/ipcnames.c", os.path.join(build.REPO, "src", "puthread.c")], exclude=("puthread.c",),
+                           cflags=["-DIPCNAMES_NO_WRAPPERS"] + flags, ldflags=["-Wl," + ",".join("--wrap=" + w for w in WRAPS)])
+
+
 def run(prop, tier):
     t0 = time.time()
     acc = common.Acc()
     common.run_harness(exe(), ["all", 0 if tier == "quick" else 1], acc, "eintr_fault all", timeout=3000, crash_prop=prop)
+    for tag, flags in (("nanosleep", ["-UPLIBSYS_HAS_CLOCKNANOSLEEP", "-DPLIBSYS_HAS_NANOSLEEP"]), ("select", ["-UPLIBSYS_HAS_CLOCKNANOSLEEP", "-UPLIBSYS_HAS_NANOSLEEP"])):
+        common.run_harness(sleep_variant_exe(tag, flags), ["all", 0 if tier == "quick" else 1, "sleep"], acc, "eintr_fault[sleep via %s] sleep scenarios" % tag, timeout=3000, crash_prop=prop)
+    for v in acc.viols:
+        if "sleep via" in v.get("job", ""):
+            v["sig"] += "@" + v["job"].split("sleep via ")[1].split("]")[0]
     probe = {}
     if tier == "thorough" and not acc.viols and not acc.engine_errors:
         # binding of the injection convention to reality: one real handled signal per case (non-deciding; a mismatch is an engine error)
@@ -25,7 +36,8 @@ def run(prop, tier):
             raise common.EngineError("real-signal probe disagrees with the injector's convention table or the library: %s" % [l for l in lines if "MISMATCH" in l])
     s = acc.stats
     cov = dict(evaluations=s.get("evaluations", 0), distinct_nontrivial=s.get("nontrivial", 0),
-               rule="scenarios: p_uthread_sleep(30) on a virtual clock, semaphore acquire (unit available / arriving later from another thread), shm new+open+lock/unlock, semaphore OPEN/CREATE on absent and "
+               rule="scenarios: p_uthread_sleep(30) on a virtual clock (interrupted after a third of the time and 0.4 ms before the end; for each of the three implementations puthread.c contains: "
+                    "clock_nanosleep, nanosleep, select), semaphore acquire (unit available / arriving later from another thread), shm new+open+lock/unlock, semaphore OPEN/CREATE on absent and "
                     "present names, TCP connect/accept/send/io_condition_wait/receive both ways + idle receive that must time out, UDP send_to/receive_from on loopback; EINTR is injected at every "
                     "invocation index k of clock_nanosleep, nanosleep, sem_wait, sem_open, shm_open, poll, connect, accept, recv, recvfrom, send, sendto%s, with each call's real convention and without "
                     "performing the call; oracle: API-visible outcome string identical to the run without injection, sleep returns 0 with >= 30 ms of virtual time, no error carrying native code EINTR. "
